@@ -170,6 +170,7 @@ pub fn run_crash(rep: &mut Report, label: &str, histories: Vec<History>, spec: C
             let has = |v: &Vec<CFound>| v.iter().any(|x| x.clause == f.clause);
             if has(&a) && has(&b) {
                 validated += 1;
+                rep.validated_findings += 1;
             } else {
                 rep.machinery.push(format!("{}: finding {} at {} did not reproduce on replay", label, f.clause, f.point));
             }
@@ -403,6 +404,7 @@ pub fn run_faults(rep: &mut Report, label: &str, histories: Vec<History>, classe
                 let b = again(inj);
                 if a.as_deref() == Some(f.clause.as_str()) && b.as_deref() == Some(f.clause.as_str()) {
                     validated += 1;
+                    rep.validated_findings += 1;
                 } else {
                     rep.machinery.push(format!("{}: finding {} at {} did not reproduce: {:?} / {:?}", label, f.clause, f.point, a, b));
                 }
